@@ -301,6 +301,25 @@ func (r *Request) transferError(err error) {
 
 // called from worker to handle packet/request
 func (r *Request) call(handlers Handlers, pkt requestPacket, alloc *allocator, orderID uint32, maxTxPacket uint32) responsePacket {
+	// A handle only serves the requests of its own kind: a READ on a directory
+	// or write-only handle, a WRITE on a read-only or directory handle, or a
+	// READDIR on a file handle must fail, rather than be answered (or even
+	// executed) by the wrapper of the handle's kind.
+	switch pkt.(type) {
+	case *sshFxpReadPacket:
+		if r.Method == "Put" || r.Method == "List" {
+			return statusFromError(pkt.id(), errors.New("unexpected read packet"))
+		}
+	case *sshFxpWritePacket:
+		if r.Method == "Get" || r.Method == "List" {
+			return statusFromError(pkt.id(), errors.New("unexpected write packet"))
+		}
+	case *sshFxpReaddirPacket:
+		if r.Method == "Get" || r.Method == "Put" || r.Method == "Open" {
+			return statusFromError(pkt.id(), errors.New("unexpected dir packet"))
+		}
+	}
+
 	switch r.Method {
 	case "Get":
 		return fileget(handlers.FileGet, r, pkt, alloc, orderID, maxTxPacket)
